@@ -76,6 +76,9 @@ func (n *EvalUnaryNode) EvalDuration(scope *Scope, executionState ExecutionState
 	if err != nil {
 		return 0, err
 	}
+	if n.operator != ast.TokenMinus {
+		return 0, n.invalidOperatorError(typ)
+	}
 	if typ == ast.TDuration {
 		result, err := n.nodeEvaluator.EvalDuration(scope, executionState)
 		if err != nil {
@@ -97,6 +100,9 @@ func (n *EvalUnaryNode) EvalFloat(scope *Scope, executionState ExecutionState) (
 	if err != nil {
 		return 0, err
 	}
+	if n.operator != ast.TokenMinus {
+		return 0, n.invalidOperatorError(typ)
+	}
 	if typ == ast.TFloat {
 		result, err := n.nodeEvaluator.EvalFloat(scope, executionState)
 		if err != nil {
@@ -113,6 +119,9 @@ func (n *EvalUnaryNode) EvalInt(scope *Scope, executionState ExecutionState) (in
 	typ, err := n.Type(scope)
 	if err != nil {
 		return 0, err
+	}
+	if n.operator != ast.TokenMinus {
+		return 0, n.invalidOperatorError(typ)
 	}
 	if typ == ast.TInt {
 		result, err := n.nodeEvaluator.EvalInt(scope, executionState)
@@ -131,6 +140,9 @@ func (n *EvalUnaryNode) EvalBool(scope *Scope, executionState ExecutionState) (b
 	if err != nil {
 		return false, err
 	}
+	if n.operator != ast.TokenNot {
+		return false, n.invalidOperatorError(typ)
+	}
 	if typ == ast.TBool {
 		result, err := n.nodeEvaluator.EvalBool(scope, executionState)
 		if err != nil {
@@ -141,4 +153,10 @@ func (n *EvalUnaryNode) EvalBool(scope *Scope, executionState ExecutionState) (b
 	}
 
 	return false, ErrTypeGuardFailed{RequestedType: ast.TBool, ActualType: typ}
+}
+
+// invalidOperatorError reports that the unary operator is not defined for the operand type:
+// '!' applies to booleans only, '-' to numbers and durations only.
+func (n *EvalUnaryNode) invalidOperatorError(typ ast.ValueType) error {
+	return fmt.Errorf("invalid unary operator %v for type %s", n.operator, typ)
 }
